@@ -162,3 +162,31 @@ def _ring_units():
 
 
 _ring_units()
+
+_BURST_BOUND = ("burst size 0..3 or > IMB_MAX_BURST_SIZE; ring tail position from {0,1,100,253,254,255} x queue length from "
+                "{0,1,2,253,254,255}; slot contents, statuses and completion pattern symbolic")
+for _arch, (_f, _tier) in ARCHS.items():
+    _t = "quick" if _arch == "sse_t1" else "thorough"
+    for _e, _probe in (("h_get_next_burst", "get-next-burst harness"), ("h_flush_burst", "flush-burst emptying")):
+        add(Unit(name="c05_%s_%s" % (_e[2:], _arch), harness="c05_burst.c", entry=_e,
+                 props={"C05": "tag", "C12": "tag", "C14": "tag"}, dfcc=False, add_library=False,
+                 remove_bodies=["submit_new_burst_job", "complete_burst_job", "is_job_invalid"], stub_src=["stubs/c05_burst_models.c"],
+                 defines=['UNIT_FILE="%s"' % _f], checks=("--no-standard-checks",), unwind=6, timeout=900, tier=_t, probes=[_probe],
+                 functions=[unit_macro(_arch, "GET_NEXT_BURST" if "next" in _e else "FLUSH_BURST")], bounded=_BURST_BOUND,
+                 sources=["lib/include/mb_mgr_burst_async.h"], slice="bounded stand-in for the burst get-next / flush operations"))
+    add(Unit(name="c05_submit_burst_check_%s" % _arch, harness="c05_burst_check.c", entry="h_submit_burst_check",
+             props={"C05": "tag", "C12": "tag", "C06": "tag"}, dfcc=False, add_library=False,
+             remove_bodies=["submit_new_burst_job", "complete_burst_job", "is_job_invalid", "JOBS"],
+             stub_src=["stubs/c05_burst_models.c", "stubs/c05_burst_check_models.c"], defines=['UNIT_FILE="%s"' % _f],
+             checks=("--no-standard-checks",), unwind=6, timeout=1200, tier=_t, probes=["suite-id rejection", "accepted burst reachable"],
+             functions=["submit_burst_and_check (validation phase)"],
+             bounded="burst size 0..3 or > IMB_MAX_BURST_SIZE; ring position and queue length fully symbolic; hand-back phase of accepted bursts not covered",
+             sources=["lib/include/mb_mgr_burst_async.h"], slice="whole-burst validation before any submit; suite-id check"))
+    add(Unit(name="c05_submit_burst_acct_%s" % _arch, harness="c05_burst_check.c", entry="h_submit_burst_check",
+             props={"C05": "tag"}, dfcc=False, add_library=False,
+             remove_bodies=["submit_new_burst_job", "complete_burst_job", "is_job_invalid", "JOBS"],
+             stub_src=["stubs/c05_burst_models.c", "stubs/c05_burst_check_models.c"], defines=['UNIT_FILE="%s"' % _f, "WITH_ACCOUNTING"],
+             checks=("--no-standard-checks",), unwind=6, timeout=3000, tier="thorough", probes=["accepted burst reachable"],
+             functions=["submit_burst_and_check (accounting of accepted bursts)"],
+             bounded="burst size 0..3; ring position and queue length fully symbolic; slot identity of handed-back jobs abstracted",
+             sources=["lib/include/mb_mgr_burst_async.h"], slice="queue size after an accepted burst = before + submitted - handed back"))
